@@ -13,7 +13,7 @@ use soroban_sdk::{Address, BytesN};
 
 pub struct C08;
 
-const RETENTIONS: [u64; 6] = [0, 1, 2, 3, 5, 100];
+const RETENTIONS: [u64; 10] = [0, 1, 2, 3, 5, 100, u64::MAX, u64::MAX - 1, u64::MAX - 3, 1 << 63];
 
 #[derive(Clone, Debug, Serialize, Deserialize, PartialEq, Eq)]
 pub struct Step {
@@ -42,21 +42,21 @@ impl Property for C08 {
         "C08"
     }
     fn rule(&self) -> &'static str {
-        "proptest: retention in {0,1,2,3,5,100}, 1-4 initial sets, history of <=9 (quick) / <=14 (thorough) rotation attempts (proving set = any installed set, bypass flag, operator authorisation). After construction and after every step EVERY installed set is probed on both paths: validate_proof over a fresh data hash and approve_messages of a unique message. Oracle: honoured iff current_epoch - epoch(set) <= retention (validate_proof's flag true exactly for the newest set); a rotation attempt succeeds iff the proving set is the newest (no bypass) or within the window (bypass with operator authorisation). non-trivial = some probe lies exactly on the boundary (current - epoch in {retention, retention+1}); distinct by Debug hash"
+        "proptest: retention in {0,1,2,3,5,100,2^63,u64::MAX-3,u64::MAX-1,u64::MAX}, 1-4 initial sets, history of <=9 (quick) / <=14 (thorough) rotation attempts (proving set = any installed set, bypass flag, operator authorisation). After construction and after every step EVERY installed set is probed on both paths: validate_proof over a fresh data hash and approve_messages of a unique message. Oracle: honoured iff current_epoch - epoch(set) <= retention (validate_proof's flag true exactly for the newest set); a rotation attempt succeeds iff the proving set is the newest (no bypass) or within the window (bypass with operator authorisation). non-trivial = some probe lies exactly on the boundary (current - epoch in {retention, retention+1}); distinct by Debug hash"
     }
     fn cases(&self, tier: Tier) -> u64 {
         tier.pick(3000, 40000)
     }
     fn strategy(&self, tier: Tier) -> BoxedStrategy<Case> {
         let n = tier.pick(9usize, 14usize);
-        (0u8..6, proptest::collection::vec(setgen(3), 1..5), proptest::collection::vec(step(), 0..=n))
+        (0u8..10, proptest::collection::vec(setgen(3), 1..5), proptest::collection::vec(step(), 0..=n))
             .prop_map(|(retention, initial, steps)| Case { retention, initial, steps })
             .boxed()
     }
 
     fn run(&self, case: &Case, cx: &mut Cx) -> Result<(), String> {
         let env = new_env();
-        let retention = RETENTIONS[case.retention as usize % 6];
+        let retention = RETENTIONS[case.retention as usize % RETENTIONS.len()];
         let mut installed: Vec<BuiltSet> = case.initial.iter().enumerate().map(|(i, g)| g.build(i as u8)).collect();
         let gw = deploy_gateway(&env, [9; 32], 0, retention, &installed).map_err(|e| format!("setup: {}", e))?;
         let mut model = SignerModel { retention, ..Default::default() };
@@ -73,7 +73,7 @@ impl Property for C08 {
                 let e = model.by_hash[&h];
                 let age = model.epoch - e;
                 let live = age <= retention;
-                if age == retention || age == retention + 1 {
+                if age == retention || Some(age) == retention.checked_add(1) {
                     boundary.set(true);
                     cx.label(if age == retention { "probe_at_last_valid_epoch" } else { "probe_first_epoch_after_window" });
                 }
@@ -127,7 +127,7 @@ impl Property for C08 {
             let cand = st.cand.build((case.initial.len() + k) as u8);
             let page = model.epoch - model.by_hash[&ph];
             let expect_ok = if st.bypass { st.operator_auth && page <= retention } else { page == 0 };
-            if st.bypass && st.operator_auth && (page == retention || page == retention + 1) {
+            if st.bypass && st.operator_auth && (page == retention || Some(page) == retention.checked_add(1)) {
                 boundary.set(true);
                 cx.label("bypass_rotation_at_window_boundary");
             }
